@@ -440,7 +440,7 @@ func shutdownScenarios(c *Ctx) {
 		rounds = 20
 	}
 	for it := 0; it < rounds; it++ {
-		for _, kind := range []string{"request", "request-timer", "validate", "membership", "membership-then-sync", "flood-then-sync", "flood-then-election", "two-syncs"} {
+		for _, kind := range []string{"request", "request-timer", "elected-request-timer", "validate", "membership", "membership-then-sync", "flood-then-sync", "flood-then-election", "two-syncs"} {
 			w := NewWorld(100)
 			var members []interfaces.CommitteeMember
 			for i := 0; i < 4; i++ {
@@ -448,18 +448,23 @@ func shutdownScenarios(c *Ctx) {
 			}
 			w.Committee = func(h uint64) []interfaces.CommitteeMember { return members }
 			me := 0 // leader of view 0: proposes on start
-			if kind == "validate" {
+			if kind == "validate" || kind == "elected-request-timer" {
 				me = 1
 			}
 			cfg, bu, _, el := simpleConfig(w, memberId(me))
 			linger := time.Duration(20+r.Intn(150)) * time.Millisecond
-			if kind == "request-timer" {
+			if kind == "request-timer" || kind == "elected-request-timer" {
 				// the library's own timer-based election trigger, armed by the term that is being started when the
 				// shutdown arrives: after WaitUntilShutdown nothing of it may be left, even once its timeout has passed
 				cfg.OverrideElectionTrigger = nil
 				cfg.ElectionTimeoutOnV0 = 90 * time.Millisecond
 				linger = time.Duration(10+r.Intn(40)) * time.Millisecond
 			}
+			if kind == "elected-request-timer" {
+				cfg.ElectionTimeoutOnV0 = 40 * time.Millisecond
+			}
+			// every other round the consumer answers a cancelled RequestNewBlockProposal with no block at all
+			bu.NilOnCancel = it%2 == 1 || kind == "elected-request-timer"
 			inSpi := make(chan struct{}, 16)
 			release := make(chan struct{})
 			var sawDone int32
@@ -505,6 +510,16 @@ func shutdownScenarios(c *Ctx) {
 			tctx, tc := context.WithTimeout(ctx, time.Second)
 			ml.UpdateState(tctx, nil, nil)
 			tc()
+			if kind == "elected-request-timer" {
+				// member 1 leads view 1: the votes of members 2 and 3 for view 1 arrive, its own election timer of view 0
+				// (40 ms) fires, it is elected with its own vote and asks its consumer for a block (the gate blocks)
+				a := &Adversary{net: net, km: &FakeKeyManager{w: w, me: memberId(2)}}
+				for _, m := range []int{2, 3} {
+					tctx, tc := context.WithTimeout(ctx, time.Second)
+					ml.HandleConsensusMessage(tctx, a.mkVC(a.vcContent(memberId(m), protocol.LEAN_HELIX_VIEW_CHANGE, 100, 1, 1, nil), nil))
+					tc()
+				}
+			}
 			if kind == "validate" {
 				b := &FakeBlock{H: 1, Id: 77}
 				a := &Adversary{net: net, km: &FakeKeyManager{w: w, me: memberId(0)}}
@@ -632,7 +647,7 @@ func shutdownScenarios(c *Ctx) {
 			}
 			t0 := time.Now()
 			cancel()
-			if kind == "request" || kind == "validate" || kind == "request-timer" {
+			if kind == "request" || kind == "validate" || kind == "request-timer" || kind == "elected-request-timer" {
 				// C15: the context the blocked SPI call waits on is cancelled by the shutdown
 				ok := false
 				for k := 0; k < 200 && !ok; k++ {
@@ -661,7 +676,7 @@ func shutdownScenarios(c *Ctx) {
 				c.Violation("C16", "loop-alive-after-shutdown", fmt.Sprintf("cancelled while the worker was in %s: WaitUntilShutdown returned after %v but %d library goroutines are still running (%s)", kind, took, live, which), "shutdown-scenario "+kind)
 			}
 			time.Sleep(linger + 60*time.Millisecond)
-			if kind == "request-timer" {
+			if kind == "request-timer" || kind == "elected-request-timer" {
 				time.Sleep(120 * time.Millisecond) // well past the election timeout armed before the shutdown
 			}
 			mu.Lock()
